@@ -25,10 +25,56 @@ def build_unit(chk):
 
 
 def native(chk, unit):
-    obj = simunit.native_obj(chk, unit, "c02_unit")
     exe = os.path.join(chk.out, "c02_native")
+    if unit is None:
+        hv.build_native(os.path.join(hv.VERIF, "native", "c02_native.cpp"), exe, extra=["-DNO_EXTRACTED", os.path.join(hv.REPO, "hex.cpp")])
+        return exe
+    obj = simunit.native_obj(chk, unit, "c02_unit")
     hv.build_native(os.path.join(hv.VERIF, "native", "c02_native.cpp"), exe, extra=[obj, os.path.join(hv.REPO, "hex.cpp")])
     return exe
+
+
+def native_stage(chk, exe, extracted=True):
+    n = 200000 if chk.tier == "quick" else 20000000
+    rc, o, e, secs = hv.run([exe, "fidelity", str(chk.seed), str(n)], timeout=3000)
+    try:
+        fid = json.loads(o)
+    except Exception:
+        raise hv.Infra("fidelity run failed: " + (o + e)[-800:])
+    fid.update({"stage": "real hexsim::Processor (one instruction through the HEX_VERIF accessor) vs %sisa_step on seeded states" % ("extracted step vs " if extracted else ""), "secs": round(secs, 1)})
+    chk.native.append(fid)
+    if extracted and fid.get("extract_mismatches", 1) != 0:
+        raise hv.Infra("extraction fidelity mismatch (extractor bug, not a verdict): %s" % fid.get("first_extract"))
+    if fid.get("spec_mismatches", 0) != 0:
+        st = fid["first_spec"]
+        p = chk.replay_path("native-%s" % st["pc"])
+        r = replay_state(exe, st)
+        json.dump({"property": PID, "obligation": "native fidelity sweep: real step != isa_step", "state": st, "real_code_result": r}, open(p, "w"), indent=1)
+        chk.add_violation("native-sweep", p, "real hexsim step differs from the ISA on %s" % st, True)
+    # stream routing corners (streams 0, 255, 256, 2047, 2048, 4096+k, negative) through the real HexSimIO, files checked on disk
+    for st in STREAM_CASES:
+        r = replay_state(exe, st)
+        if r.get("ok") is False:
+            p = chk.replay_path("stream-%s" % st["mem"][9])
+            json.dump({"property": PID, "obligation": "native stream-routing case", "state": st, "real_code_result": r, "how": "./check C02 --replay " + p}, open(p, "w"), indent=1)
+            chk.add_violation("native-streams", p, "stream routing: %s" % r.get("why"), True)
+            break
+    chk.native.append({"stage": "stream-routing corner cases through the real HexSimIO (files checked on disk)", "cases": len(STREAM_CASES)})
+
+
+def _stream_case(syscall, stream, byte=65, in_byte=120):
+    # pc=0: OPR SVC (0xD3); sp=16 at word 1; mem[18]=byte, mem[19]=stream (write) / mem[18]=stream (read)
+    if syscall == 1:
+        return {"pc": 0, "areg": 1, "breg": 0, "oreg": 0, "in": in_byte, "mem": [0, 0xD3, 1, 16, 18, byte, 19, stream, 17, 0]}
+    return {"pc": 0, "areg": 2, "breg": 0, "oreg": 0, "in": in_byte, "mem": [0, 0xD3, 1, 16, 18, stream, 19, 0, 17, 0]}
+
+
+STREAM_CASES = [_stream_case(sc, s) for sc in (1, 2) for s in (0, 255, 256, 511, 2047, 2048, 2303, 4096, 65536 + 512, 0x80000000, 0xFFFFFF00, 0x80000300)]
+
+
+def native_only(chk):
+    exe = native(chk, None)
+    native_stage(chk, exe, extracted=False)
 
 
 def replay_state(exe, st):
@@ -76,22 +122,7 @@ def main(chk, replay_file):
     chk.jobs = jobs
     hv.run_jobs(jobs, chk.out)
     exe = native(chk, unit)
-    n = 200000 if tier == "quick" else 20000000
-    rc, o, e, secs = hv.run([exe, "fidelity", str(chk.seed), str(n)], timeout=3000)
-    try:
-        fid = json.loads(o)
-    except Exception:
-        raise hv.Infra("fidelity run failed: " + (o + e)[-800:])
-    fid.update({"stage": "real hexsim::Processor (one instruction through the HEX_VERIF accessor) vs extracted step vs isa_step on seeded states", "secs": round(secs, 1)})
-    chk.native.append(fid)
-    if fid.get("extract_mismatches", 1) != 0:
-        raise hv.Infra("extraction fidelity mismatch (extractor bug, not a verdict): %s" % fid.get("first_extract"))
-    if fid.get("spec_mismatches", 0) != 0:
-        st = fid["first_spec"]
-        p = chk.replay_path("native-%s" % st["pc"])
-        r = replay_state(exe, st)
-        json.dump({"property": PID, "obligation": "native fidelity sweep: real step != isa_step", "state": st, "real_code_result": r}, open(p, "w"), indent=1)
-        chk.add_violation("native-sweep", p, "real hexsim step differs from the ISA on %s" % st, True)
+    native_stage(chk, exe)
 
     for j in jobs:
         r = j.result
